@@ -16,7 +16,7 @@ pub const DEF: PropDef = PropDef {
     run,
     replay,
     level: "exploration",
-    rule: "complete enumeration of the finite configuration space: (A) 38 patterns x {25519,P256} x all 16 combinations of {local static, remote static} supplied to the two roles: each build must be Ok iff the role's required keys (derived from the harness's own pattern table: local static iff the role's s occurs as pre-message or message token; remote static iff the peer's s is a pre-message) are supplied, else Err(Prereq(..)) naming a missing item; every pair that builds runs an honest handshake that must complete without any error. (B) 38 patterns x psk modifier sets (every single index 0..=9, every subset of 0..=4, fallback, psk+fallback) with all keys: Ok iff every index <= #messages and no fallback, else Err(Pattern(InvalidPsk|UnsupportedModifier)). (C) resolvers lacking each of rng/dh/hash/cipher and DH 448 x both roles x generate_keypair: the matching Err(Init(Get..Impl)). (D) psk handshake strings x every subset of PSKs supplied at build time on either side (PSK values random, and - for equal subsets - an all-zero / all-ones first PSK): the handshake proceeds exactly until the first call whose message contains an unsupplied psk token, that call returns Err, and such a pair never completes. Non-trivial = a configuration where exactly one required item is missing or an optional one is extra, or a PSK is missing; distinct by configuration tuple",
+    rule: "complete enumeration of the finite configuration space: (A) 38 patterns x {25519,P256} x all 16 combinations of {local static, remote static} supplied to the two roles, also on every single-psk variant of the pattern with the PSK given at build time or left for set_psk(): each build must be Ok iff the role's required keys (derived from the harness's own pattern table: local static iff the role's s occurs as pre-message or message token; remote static iff the peer's s is a pre-message) are supplied, else Err(Prereq(..)) naming a missing item; every pair that builds runs an honest handshake that must complete without any error. (B) 38 patterns x psk modifier sets (every single index 0..=9, every subset of 0..=4, fallback, psk+fallback) with all keys: Ok iff every index <= #messages and no fallback, else Err(Pattern(InvalidPsk|UnsupportedModifier)). (C) resolvers lacking each of rng/dh/hash/cipher and DH 448 x both roles x generate_keypair: the matching Err(Init(Get..Impl)). (D) psk handshake strings x every subset of PSKs supplied at build time on either side (PSK values random, and - for equal subsets - an all-zero / all-ones first PSK): the handshake proceeds exactly until the first call whose message contains an unsupplied psk token, that call returns Err, and such a pair never completes. Non-trivial = a configuration where exactly one required item is missing or an optional one is extra, or a PSK is missing; distinct by configuration tuple",
     technique: "exhaustive enumeration of the builder configuration space against requirements derived from an independent pattern table",
     assumptions: &[],
     panic_is_violation: false,
@@ -26,7 +26,18 @@ pub const DEF: PropDef = PropDef {
 #[derive(Clone, Debug, Serialize, Deserialize)]
 pub enum Case {
     /// A: keys supplied (s_i, rs_i, s_r, rs_r)
-    Keys { pattern: String, dh: DhKind, s_i: bool, rs_i: bool, s_r: bool, rs_r: bool },
+    Keys {
+        pattern: String,
+        dh: DhKind,
+        s_i: bool,
+        rs_i: bool,
+        s_r: bool,
+        rs_r: bool,
+        /// the same table on a name with one psk modifier: Some((index, supplied at build time?));
+        /// a PSK left for set_psk() must not change which static keys the build asks for
+        #[serde(default)]
+        psk: Option<(u8, bool)>,
+    },
     /// B: modifier string after the pattern name
     Mods { pattern: String, mods: String, psk_indices: Vec<u8>, fallback: bool },
     /// C: lacking primitive kind 0 rng 1 dh 2 hash 3 cipher, 4 = DH 448 with the default resolver
@@ -45,16 +56,23 @@ pub enum Case {
 fn oracle(c: &Case, acc: &mut Acc) -> CaseResult {
     let suites = all_suites();
     match c {
-        Case::Keys { pattern, dh, s_i, rs_i, s_r, rs_r } => {
+        Case::Keys { pattern, dh, s_i, rs_i, s_r, rs_r, psk } => {
             let suite = *suites.iter().find(|s| s.dh == *dh).unwrap();
-            let spec = SessionSpec::simple(HsName { pattern: pattern.clone(), psks: vec![] }, suite, 0xC12);
+            // key material differs from configuration to configuration (incl. the shaped keys
+            // of sess::shaped_priv / golden_shaped)
+            let kseed = 0xC12 + pattern.bytes().map(|b| b as u64).sum::<u64>() * 16 + (*s_i as u64) + 2 * (*rs_i as u64) + 4 * (*s_r as u64) + 8 * (*rs_r as u64);
+            let spec = SessionSpec::simple(HsName { pattern: pattern.clone(), psks: psk.map(|p| vec![p.0]).unwrap_or_default() }, suite, kseed);
             let pat = spec.pattern();
+            let omit: Vec<u8> = match psk {
+                Some((n, false)) => vec![*n],
+                _ => vec![],
+            };
             let mut built = Vec::new();
             let mut interesting = false;
             for (init, s, rs) in [(true, *s_i, *rs_i), (false, *s_r, *rs_r)] {
                 let need_s = pat.role_uses_static(init);
                 let need_rs = pat.role_needs_remote_static(init);
-                let ov = EpOverrides { supply_s: Some(s), supply_rs: Some(rs), ..Default::default() };
+                let ov = EpOverrides { supply_s: Some(s), supply_rs: Some(rs), omit_psks: omit.clone(), ..Default::default() };
                 let res = build_snow(&spec, init, &ov, &Instr::none());
                 let role = if init { "initiator" } else { "responder" };
                 let should = (!need_s || s) && (!need_rs || rs);
@@ -83,6 +101,13 @@ fn oracle(c: &Case, acc: &mut Acc) -> CaseResult {
             if built.len() == 2 {
                 let mut hr = built.pop().unwrap();
                 let mut hi = built.pop().unwrap();
+                for n in &omit {
+                    hi.set_psk(*n as usize, &spec.psk(*n)).map_err(|x| Fail::new(format!("{}: set_psk({n}): {x:?}", spec.name_string())))?;
+                    hr.set_psk(*n as usize, &spec.psk(*n)).map_err(|x| Fail::new(format!("{}: set_psk({n}): {x:?}", spec.name_string())))?;
+                }
+                if psk.is_some() {
+                    acc.label(if omit.is_empty() { "A:psk_name_psk_at_build" } else { "A:psk_name_psk_by_set_psk" });
+                }
                 for idx in 0..spec.n_msgs() {
                     let (w, r) = if idx % 2 == 0 { (&mut hi, &mut hr) } else { (&mut hr, &mut hi) };
                     let m = hs_write(w, b"pay", 65535).map_err(|x| Fail::new(format!("{} (keys {c:?}): successfully built pair fails later: write {idx}: {x:?}", spec.name_string())))?;
@@ -225,7 +250,15 @@ pub fn run(ctx: &Ctx) {
     for p in &pats {
         for dh in [DhKind::X25519, DhKind::P256] {
             for m in 0..16u8 {
-                cases.push(Case::Keys { pattern: p.name.clone(), dh, s_i: m & 1 != 0, rs_i: m & 2 != 0, s_r: m & 4 != 0, rs_r: m & 8 != 0 });
+                cases.push(Case::Keys { pattern: p.name.clone(), dh, s_i: m & 1 != 0, rs_i: m & 2 != 0, s_r: m & 4 != 0, rs_r: m & 8 != 0, psk: None });
+                // ... and on every single-psk variant of the pattern, PSK given at build time or left for set_psk
+                if dh == DhKind::X25519 {
+                    for n in 0..=p.msgs.len() as u8 {
+                        for at_build in [true, false] {
+                            cases.push(Case::Keys { pattern: p.name.clone(), dh, s_i: m & 1 != 0, rs_i: m & 2 != 0, s_r: m & 4 != 0, rs_r: m & 8 != 0, psk: Some((n, at_build)) });
+                        }
+                    }
+                }
             }
         }
         for n in 0..=9u8 {
